@@ -34,6 +34,26 @@ def first_diff(va, vb):
     return 'same'
 
 
+def branched_bis_double_atoms(m):
+    """atoms with at least three neighbours of which at least two are joined by a double bond (structure only)"""
+    return {n for n, nb in m._bonds.items() if len(nb) >= 3 and sum(1 for b in nb.values() if b.order == 2) >= 2}
+
+
+def label_diff_confined_to(ba, bb, hubs):
+    """the two adjacency views differ only in the stereo label of double bonds that have an end in `hubs`"""
+    if len(ba) != len(bb):
+        return False
+    for (n, xs), (k, ys) in zip(ba, bb):
+        if n != k or len(xs) != len(ys):
+            return False
+        for (a, o1, s1), (b, o2, s2) in zip(xs, ys):
+            if a != b or o1 != o2:
+                return False
+            if s1 != s2 and not (o1 == 2 and (n in hubs or a in hubs)):
+                return False
+    return True
+
+
 def judge(m, tag, wit=None, *, labels=True, smiles_eq=False, copy=True, layout=True):
     """all contracts of the module docstring on one molecule; returns a list of (key, what, witness)"""
     from chython.containers import MoleculeContainer
@@ -62,7 +82,16 @@ def judge(m, tag, wit=None, *, labels=True, smiles_eq=False, copy=True, layout=T
         out.append((f'pack-length@{tag}', f'_return_pack_length gives {ln}, the pack has {len(raw)} bytes ({tag})', wit))
     va, vb = view(m), view(u)
     if va != vb:
-        out.append((f'roundtrip@{tag}', f'unpack(pack(m)) differs from m for {tag}: {first_diff(va, vb)}', dict(wit, diff=first_diff(va, vb))))
+        # recorded family (decided from the input structure, not from the failure): the format keys a cis/trans record by its two terminal atoms,
+        # which is ambiguous when TWO double bonds meet at a branched atom (>= 3 neighbours; valence-invalid, but accepted by pack(check=True)).
+        # Only a difference confined to the cis/trans labels of double bonds at such an atom belongs to it; anything else keeps its own key.
+        hubs = branched_bis_double_atoms(m)
+        if hubs and va[0] == vb[0] and label_diff_confined_to(va[1], vb[1], hubs):
+            out.append(('roundtrip:cis-trans-label@two-double-bonds-at-a-branched-atom',
+                        f'unpack(pack(m)) moves a cis/trans label between the double bonds of branched atom(s) {sorted(hubs)} for {tag}: {first_diff(va, vb)}',
+                        dict(wit, diff=first_diff(va, vb), hubs=sorted(hubs))))
+        else:
+            out.append((f'roundtrip@{tag}', f'unpack(pack(m)) differs from m for {tag}: {first_diff(va, vb)}', dict(wit, diff=first_diff(va, vb))))
         return out
     if list(u._atoms) != list(u._bonds):
         out.append((f'adjacency-order@{tag}', 'atoms and adjacency of the unpacked molecule are ordered differently', wit))
